@@ -499,6 +499,13 @@ def generate(seed, **kw):
     return s
 
 
+def _drop_tail_hbf(s, l_i):
+    """remove the last (two-packet) HBF of a link; the ground truth follows the packets: frames that started in a removed packet go with it"""
+    del s.pkts[l_i][-2:]
+    n = len(s.pkts[l_i])
+    s.frames = [fr for fr in s.frames if not (fr["link"] == l_i and fr["tdh"][0] >= n)]
+
+
 def _fit_packet_count(rng, P, s):
     """Make the total packet count exactly P.target_packets by appending small HBFs (2 packets) and, if the
     remainder is odd, one three-page HBF."""
@@ -512,9 +519,9 @@ def _fit_packet_count(rng, P, s):
         need = P.target_packets - total
         if need == 1:
             # cannot add a single packet: drop one 2-packet HBF somewhere and add a 3-packet one instead
-            for lp in s.pkts:
+            for l_i, lp in enumerate(s.pkts):
                 if len(lp) > 2 and lp[-1].f["stop_bit"] == 1 and lp[-2].f["pages_counter"] == 0:
-                    del lp[-2:]
+                    _drop_tail_hbf(s, l_i)
                     total -= 2
                     break
             else:
@@ -541,9 +548,9 @@ def _fit_packet_count(rng, P, s):
         li += 1
     # trim if we overshot (remove whole small HBFs from the end of links)
     while total > P.target_packets:
-        for lp in s.pkts:
+        for l_i, lp in enumerate(s.pkts):
             if total - P.target_packets >= 2 and len(lp) > 2 and lp[-1].f["stop_bit"] == 1 and lp[-2].f["pages_counter"] == 0:
-                del lp[-2:]
+                _drop_tail_hbf(s, l_i)
                 total -= 2
                 break
         else:
